@@ -13,6 +13,7 @@ class TA(Agent):
     def initialize(self):
         self.agent_type = "a"
         self.register_event_handler(["active", "other"], "msg", self.on_msg)
+        self.register_event_handler(["active", "other"], "note", self.on_msg)
     def on_msg(self, e):
         LOG.append((e.data, self.id, self.model.scheduler.current_round, self.model.scheduler.current_step))
 
@@ -33,17 +34,22 @@ def run(case):
         for op in [o for o in case["ops"] if o[0] == g]:
             k = op[1]
             if k == "send":
-                _, _, tag, rid, d = op
+                _, _, tag, rid, d = op[:5]
+                name = op[5] if len(op) > 5 else "msg"
                 if d is None:
-                    ev = Event("msg", 0, rid, data=tag); extra = 0
+                    ev = Event(name, 0, rid, data=tag); extra = 0
                 else:
-                    ev = DelayedEvent("msg", 0, rid, delay=d * dt, data=tag); extra = int(math.ceil(d))   # ceil((d*dt)/dt)
+                    ev = DelayedEvent(name, 0, rid, delay=d * dt, data=tag); extra = int(math.ceil(d))   # ceil((d*dt)/dt)
                 m.enqueue_event(ev)
                 expected.append([tag, rid, g + extra])
             elif k == "delete":
                 m.delete_agent(op[2]); live.discard(op[2])
             elif k == "create":
                 m.create_agent("a", None); live.add(nxt); nxt += 1
+            elif k == "reconf":
+                # reconfiguration: all agents are replaced by op[2] new ones (ids are never reused)
+                m.configure_agents([{"name": "a", "count": op[2]}])
+                live = set(range(nxt, nxt + op[2])); nxt += op[2]
             elif k == "state":
                 a = m.agent(op[2])
                 if a is not None:
@@ -73,7 +79,7 @@ def run(case):
                 return "agent %d handled same-step events in order %r" % (aid, plain)
     return None
 
-case = {'n': 1, 'rounds': 3, 'agents': 2, 'ops': [(3, 'send', 'p4', 1, None), (3, 'send', 'p5', 1, None)]}
+case = {'n': 4, 'rounds': 2, 'agents': 3, 'ops': [(7, 'create'), (9, 'send', 'p13', 4, None, 'msg'), (9, 'send', 'p14', 4, None, 'note'), (9, 'send', 'p15', 4, None, 'msg'), (9, 'create')]}
 bad = run(case)
 print("script:", case)
 print("FAIL: " + bad if bad else "PASS")
